@@ -336,6 +336,10 @@ func (s *SMF) Add(t Track) error {
 			s.log("delta: %v message: %s", ev.Delta, ev.Message)
 		}
 	}
+	// clip the capacity: a track variable that keeps growing after it was added
+	// must not share spare capacity with the file (WriteTo appends the missing
+	// end-of-track in place)
+	t = t[:len(t):len(t)]
 	s.Tracks = append(s.Tracks, t)
 	if len(s.Tracks) > 1 && s.format == 0 {
 		s.format = 1
